@@ -34,10 +34,18 @@ pub fn check(cx: &Cx, rep: &mut Report) {
         // R1: never terminates while a strong handle exists (no stop, no failure)
         if !af.failed() && !stopped_by_request {
             if let Some((t_in, _)) = af.t_final() {
-                // only a *terminating* stopped(): the last incarnation's, with the task ending afterwards
-                if af.task_end.is_some() && reap.map(|r| t_in < r).unwrap_or(true) {
+                // only a *terminating* stopped(): the last incarnation's, with the task ending afterwards (L2 has no
+                // task-end events: there, an actor nobody tried to restart has a single, terminating stopped()).
+                // The count is a lower bound of the real one on real threads too: +1 is logged after a handle was
+                // obtained and -1 before it is released.
+                let restart_attempted = ix.ops.iter().any(|o| o.tag == af.tag && o.op == OpK::Restart && o.executed())
+                    || ix.ev.iter().any(|e| matches!(&e.k, K::Effect { actor, what, .. } if *actor == af.task && *what == "ctx_restart"));
+                let terminating = af.task_end.is_some() || (cx.mt && !restart_attempted && af.incs.len() == 1);
+                if terminating && reap.map(|r| t_in < r).unwrap_or(true) {
                     rep.premise("C05.R1.no_termination_while_held");
-                    let c = af.count_at(t_in);
+                    // (on real threads a parked send future releases its channel clone inside the future, before the
+                    // harness can log it: only handles proper count there)
+                    let c = if cx.mt { af.arc_count_at(t_in) } else { af.count_at(t_in) };
                     if c > 0 {
                         rep.fail(P, "R1", format!("terminated_with_strong={c}"), format!("actor tag {} began stopped() at #{t_in} while the harness still held {c} strong handle(s) and nobody had stopped it", af.tag), vec![t_in]);
                     }
